@@ -702,19 +702,27 @@ func (h *c12H) genParams(h0 int64) c12Params {
 		p.ThrA, p.ThrB = 1, 1
 	}
 	nf := 1 + r.Intn(3)
+	// which token each feeder serves: usually a permutation (so that feeder id != token id occurs), and in a third
+	// of the cases feeder 2 CONTINUES the token of feeder 1 after feeder 1's end block (Params.Validate: the
+	// successor starts after the predecessor's EndBlock and its StartRoundID continues the numbering)
+	toks := []uint64{1, 2, 3}
+	if r.Intn(2) == 0 {
+		r.Shuffle(3, func(i, j int) { toks[i], toks[j] = toks[j], toks[i] })
+	}
+	successor := nf >= 2 && r.Intn(3) == 0
 	for i := 1; i <= nf; i++ {
 		mn := uint64(p.MaxNonce)
 		iv := []uint64{2 * mn, 2*mn + 1, 7, 10}[r.Intn(4)]
 		if iv < 2*mn {
 			iv = 2 * mn
 		}
-		f := c12Feeder{ID: uint64(i), Token: uint64(i), Interval: iv, StartRound: []uint64{1, 1, 4}[r.Intn(3)]}
+		f := c12Feeder{ID: uint64(i), Token: toks[i-1], Interval: iv, StartRound: []uint64{1, 1, 4}[r.Intn(3)]}
 		s := h0 - 14 + int64(r.Intn(20))
 		if s < 1 {
 			s = 1
 		}
 		f.Start = uint64(s)
-		if r.Intn(4) == 0 {
+		if r.Intn(4) == 0 || (successor && i == 1) {
 			// EndBlock: not inside a window ((E-S)%I >= MaxNonce), somewhere around the case's blocks
 			k := uint64(r.Intn(4))
 			base := f.Start + k*iv
@@ -723,9 +731,40 @@ func (h *c12H) genParams(h0 int64) c12Params {
 			}
 			f.End = base + mn + uint64(r.Intn(int(iv-mn)))
 		}
+		if successor && i == 2 {
+			prev := p.Feeders[0]
+			f.Token = prev.Token
+			f.Start = prev.End + 1 + uint64(r.Intn(5))
+			f.StartRound = prev.StartRound + (prev.End-prev.Start)/prev.Interval + 1
+			f.End = 0
+		}
+		if successor && i == 3 {
+			f.Token = toks[1]
+		}
 		p.Feeders = append(p.Feeders, f)
 	}
 	return p
+}
+
+// c12Current: the feeder responsible for a token at block b (latest started; before any start: the first to start)
+func c12Current(p c12Params, tok uint64, b int64) (c12Feeder, bool) {
+	var cur c12Feeder
+	found, started := false, false
+	for _, f := range p.Feeders {
+		if f.Token != tok {
+			continue
+		}
+		fs := int64(f.Start) <= b
+		switch {
+		case !found:
+			cur, found, started = f, true, fs
+		case fs && (!started || f.Start > cur.Start):
+			cur, started = f, true
+		case !fs && !started && f.Start < cur.Start:
+			cur = f
+		}
+	}
+	return cur, found
 }
 
 // expected stored NextRoundID after EndBlock of block b for a chain that ran from the feeder's start
@@ -967,6 +1006,7 @@ func (h *c12H) padTo(t *c12Tx, target int) {
 type c12Script struct {
 	tags        []string
 	setupParams *c12Params // params written to the store at setup when they differ from the case's (model) params
+	paramsAfter func() c12Params // when set: the params the case is recorded with (decided by what the run observed)
 	params      *c12Params
 	h0     int64
 	powers []int64
@@ -1006,12 +1046,19 @@ func (h *c12H) runCase(sc *c12Script) {
 		mn := uint64(p.MaxNonce)
 		before := p
 		before.Feeders = append([]c12Feeder{}, p.Feeders...)
-		if len(p.Feeders) < 3 && r.Intn(2) == 0 {
+		freeTok := uint64(0)
+		for tk := uint64(1); tk <= 3; tk++ {
+			if _, used := c12Current(p, tk, 1<<40); !used {
+				freeTok = tk
+				break
+			}
+		}
+		if len(p.Feeders) < 3 && freeTok != 0 && r.Intn(2) == 0 {
 			iv := []uint64{2 * mn, 2*mn + 1, 7}[r.Intn(3)]
 			if iv < 2*mn {
 				iv = 2 * mn
 			}
-			nf := c12Feeder{ID: uint64(len(p.Feeders) + 1), Token: uint64(len(p.Feeders) + 1), Start: uint64(hk + 1 + int64(r.Intn(6))), Interval: iv, StartRound: 1}
+			nf := c12Feeder{ID: uint64(len(p.Feeders) + 1), Token: freeTok, Start: uint64(hk + 1 + int64(r.Intn(6))), Interval: iv, StartRound: 1}
 			p.Feeders = append(append([]c12Feeder{}, p.Feeders...), nf)
 			updMsg = &oracletypes.MsgUpdateParams{Params: oracletypes.Params{TokenFeeders: []*oracletypes.TokenFeeder{{
 				TokenID: nf.Token, RuleID: 1, StartRoundID: 1, StartBaseBlock: nf.Start, Interval: nf.Interval}}}}
@@ -1044,7 +1091,11 @@ func (h *c12H) runCase(sc *c12Script) {
 	// initial prices
 	init := map[uint64][]c12Price{}
 	next := map[uint64]uint64{}
-	for _, f := range p.Feeders {
+	for tokI := 1; tokI < len(p.TokenDec); tokI++ {
+		f, okF := c12Current(p, uint64(tokI), h0-1)
+		if !okF {
+			continue
+		}
 		n := c12ExpectedNext(f, uint64(p.MaxNonce), h0-1)
 		// the round that is open (not yet closed) at h0-1 has not been written
 		mode := r.Intn(12)
@@ -1233,6 +1284,10 @@ func (h *c12H) runCase(sc *c12Script) {
 	}
 	cs.NT = nt
 	cs.Final = ""
+	if sc != nil && sc.paramsAfter != nil {
+		p = sc.paramsAfter()
+		cs.Params = p
+	}
 	term := cApp("mkCase", p.coq(), initCoq, cList(blocksC))
 	h.w.Add(term, cs)
 	h.w.Count(fmt.Sprintf("case.feeders=%d", len(p.Feeders)))
